@@ -135,7 +135,7 @@ theorem C10_fixed_1sec (R : Rnd) (start d : ℤ) (hs0 : 0 ≤ start) (hs1 : star
 def C10_full : Prop :=
   ∀ (R : Rnd) (start ipd tfs d : ℤ), 1 ≤ ipd → ipd * tfs = 86400 → 0 ≤ start →
     start + 86403 < 18446744073709551616 → 0 ≤ d → d < tfs * 1000000000 →
-    Precise start tfs d (getTimeFromTicks R.r start ipd (encode R.r ipd d))
+    Precise start tfs d (getTimeFromTicksOld R.r start ipd (encode R.r ipd d))
 
 /-- **C10 for the code as written**, with exactly the class of finding C10-F5 excluded: the rounded
     second `uint64(math.Round(fs*1e8)/1e8)` equals the whole second (`sec_rounds_up`) and the
@@ -145,7 +145,7 @@ theorem C10_partial (R : Rnd) (start ipd tfs d : ℤ) (h1 : 1 ≤ ipd) (hday : i
     (hd0 : 0 ≤ d) (hd1 : d < tfs * 1000000000)
     (sec_rounds_up : secRoundsUp R.r ipd (encode R.r ipd d) = false)
     (nanos_1e9 : nanosOverflow R.r ipd (encode R.r ipd d) = false) :
-    Precise start tfs d (getTimeFromTicks R.r start ipd (encode R.r ipd d)) := by
+    Precise start tfs d (getTimeFromTicksOld R.r start ipd (encode R.r ipd d)) := by
   have hsec : roundedOff R.r ipd (encode R.r ipd d) = wholeOff R.r ipd (encode R.r ipd d) := by
     unfold secRoundsUp at sec_rounds_up
     simpa using sec_rounds_up
@@ -174,16 +174,16 @@ theorem C10_class (R : Rnd) (ipd k : ℤ) (h1 : 1 ≤ ipd) (hk0 : 0 ≤ k) (hk1 
 theorem C10_late_by_one_second (R : Rnd) (start ipd k : ℤ) (h1 : 1 ≤ ipd) (hk0 : 0 ≤ k) (hk1 : k < 4294967296)
     (hs0 : 0 ≤ start) (hs1 : start + 86403 < 18446744073709551616)
     (hup : roundedOff R.r ipd k = wholeOff R.r ipd k + 1) :
-    (getTimeFromTicks R.r start ipd k).offsetNs start = fixedOff R.r ipd k + 1000000000 := by
+    (getTimeFromTicksOld R.r start ipd k).offsetNs start = fixedOff R.r ipd k + 1000000000 := by
   rw [asis_offset R start ipd k h1 hk0 hk1 hs0 hs1 (Or.inr hup), hup]
   unfold fixedOff; ring
 
 /-- 1-second intervals, code as written: what comes back for every offset (every `R`) -/
 theorem C10_1sec (R : Rnd) (start d : ℤ) (hs0 : 0 ≤ start) (hs1 : start + 86403 < 18446744073709551616)
     (hd0 : 0 ≤ d) (hd1 : d < 1000000000) :
-    (getTimeFromTicks R.r start 86400 (encode R.r 86400 d)).nanos = d ∧
-    (d ≤ 999999994 → getTimeFromTicks R.r start 86400 (encode R.r 86400 d) = ⟨start, d⟩) ∧
-    (999999996 ≤ d → getTimeFromTicks R.r start 86400 (encode R.r 86400 d) = ⟨start + 1, d⟩) := by
+    (getTimeFromTicksOld R.r start 86400 (encode R.r 86400 d)).nanos = d ∧
+    (d ≤ 999999994 → getTimeFromTicksOld R.r start 86400 (encode R.r 86400 d) = ⟨start, d⟩) ∧
+    (999999996 ≤ d → getTimeFromTicksOld R.r start 86400 (encode R.r 86400 d) = ⟨start + 1, d⟩) := by
   obtain ⟨_, _, _, hk0, hk1, _⟩ := encode_core R 86400 1 d (by norm_num) (by norm_num) hd0 (by omega)
   have hfix := C10_fixed_1sec R start d hs0 hs1 hd0 hd1
   set k := encode R.r 86400 d with hk
@@ -209,12 +209,12 @@ theorem C10_1sec (R : Rnd) (start d : ℤ) (hs0 : 0 ≤ start) (hs1 : start + 86
     | true => have := (hadjT h).1; omega
   obtain ⟨hok, hlate⟩ := roundedOff_cases R 86400 k (by norm_num) hk0 hk1 hadj
   refine ⟨?_, ?_, ?_⟩
-  · unfold getTimeFromTicks; exact hN
+  · unfold getTimeFromTicksOld; exact hN
   · intro h
-    unfold getTimeFromTicks two64
+    unfold getTimeFromTicksOld two64
     rw [hok (by omega), hW, hN, Int.emod_eq_of_lt (by omega) (by omega)]; simp
   · intro h
-    unfold getTimeFromTicks two64
+    unfold getTimeFromTicksOld two64
     rw [hlate (by omega), hW, hN, Int.emod_eq_of_lt (by omega) (by omega)]; simp
 
 /-- counterexample to the full statement, valid for **every** rounding operator: the last four
@@ -237,21 +237,21 @@ theorem C10_cex_1sec : ¬ C10_full := by
     decoded as 20.999999995 s -/
 theorem C10_cex_1min_whole_second :
     encode rne 1440 20000000000 = 1431655765 ∧
-    getTimeFromTicks rne 1546300800 1440 1431655765 = ⟨1546300820, 999999995⟩ ∧
+    getTimeFromTicksOld rne 1546300800 1440 1431655765 = ⟨1546300820, 999999995⟩ ∧
     getTimeFromTicksFixed rne 1546300800 1440 1431655765 = ⟨1546300819, 999999995⟩ := by
   decide +kernel
 
 /-- a nanosecond field of 1e9 (and the second rounded up as well) -/
 theorem C10_cex_nanos_1e9 :
-    getTimeFromTicks rne 0 2880 2433814801 = ⟨17, 1000000000⟩ ∧
+    getTimeFromTicksOld rne 0 2880 2433814801 = ⟨17, 1000000000⟩ ∧
     getTimeFromTicksFixed rne 0 2880 2433814801 = ⟨17, 0⟩ := by
   decide +kernel
 
 /-- 1-second bucket with `rne`: offset 999 999 995 (the one value the `∀ R` theorem `C10_1sec`
     leaves open) is decoded correctly, 999 999 996 is one second late -/
 theorem C10_cex_1sec_rne :
-    getTimeFromTicks rne 0 86400 (encode rne 86400 999999995) = ⟨0, 999999995⟩ ∧
-    getTimeFromTicks rne 0 86400 (encode rne 86400 999999996) = ⟨1, 999999996⟩ := by
+    getTimeFromTicksOld rne 0 86400 (encode rne 86400 999999995) = ⟨0, 999999995⟩ ∧
+    getTimeFromTicksOld rne 0 86400 (encode rne 86400 999999996) = ⟨1, 999999996⟩ := by
   decide +kernel
 
 /-- 1D buckets: `TimeToIndex` is 0-based for 1D while `IndexToTimeDepr` subtracts one, so the base
@@ -271,7 +271,7 @@ example : (1:ℤ) ≤ 1440 ∧ (1440:ℤ) * 60 = 86400 ∧ (0:ℤ) ≤ 200000000
 /-- the hypotheses of `C10_partial` hold for a concrete non-trivial input … -/
 example : secRoundsUp rne 1440 (encode rne 1440 20383000000) = false ∧
     nanosOverflow rne 1440 (encode rne 1440 20383000000) = false ∧
-    getTimeFromTicks rne 1546300800 1440 (encode rne 1440 20383000000) = ⟨1546300820, 382999997⟩ := by
+    getTimeFromTicksOld rne 1546300800 1440 (encode rne 1440 20383000000) = ⟨1546300820, 382999997⟩ := by
   decide +kernel
 /-- … and fail for the witness of the finding -/
 example : secRoundsUp rne 1440 (encode rne 1440 20000000000) = true := by decide +kernel
